@@ -48,6 +48,80 @@ def enumerate_paths(chk):
     return {"path_enumeration": {"functions": n_funcs, "acyclic_paths": total_paths}}
 
 
+def _simple_paths(cfg, starts, stop, avoid_nodes, avoid_edges, skip_labels=(), limit=200000):
+    """All simple paths from any start until the first node in `stop` (inclusive) or a dead end."""
+    out = []
+    stack = [(s, (s,)) for s in starts if s not in avoid_nodes]
+    n = 0
+    while stack:
+        node, path = stack.pop()
+        n += 1
+        if n > limit:
+            raise AnalysisError("path explosion during the enumeration cross-check in %s" % cfg.func.fq)
+        if node in stop and len(path) >= 1 and (len(path) > 1 or node in starts and False):
+            out.append(path)
+            continue
+        if node in stop and len(path) == 1:
+            out.append(path)
+            continue
+        ext = False
+        for s, lab in node.succ:
+            if lab in skip_labels or (node, lab) in avoid_edges or (node, s, lab) in avoid_edges or s in avoid_nodes or s in path:
+                continue
+            stack.append((s, path + (s,)))
+            ext = True
+    return out
+
+
+def cross_check_queries(records):
+    """Recompute every recorded must_pass / count_range answer by explicit enumeration of
+    simple paths; any disagreement is an engine error."""
+    n_mp = n_cr = n_paths = 0
+    for rec in records:
+        if rec[0] == "must_pass":
+            _, cfg, starts, targets, via, avoid_edges, skip_labels, ok = rec
+            tset = set(targets)
+            starts2 = [s for s in starts if s not in via]
+            paths = _simple_paths(cfg, starts2, tset, via, avoid_edges, skip_labels)
+            n_paths += len(paths)
+            enum_ok = not any(p[-1] in tset for p in paths)
+            if enum_ok != ok:
+                raise AnalysisError("engine cross-check: must_pass disagrees with path enumeration in %s (%s vs %s)" % (cfg.func.fq, ok, enum_ok))
+            n_mp += 1
+        else:
+            _, cfg, src, dsts, w, avoid, avoid_edges, res = rec
+            dset = set(dsts)
+            best_min = best_max = None
+            stack = [(s, (src, s), w[src] + w.get(s, 0)) for s, lab in src.succ if (src, lab) not in avoid_edges and s not in avoid]
+            cnt = 0
+            while stack:
+                node, path, tot = stack.pop()
+                cnt += 1
+                if cnt > 200000:
+                    raise AnalysisError("path explosion during the enumeration cross-check in %s" % cfg.func.fq)
+                if node in dset:
+                    best_min = tot if best_min is None else min(best_min, tot)
+                    best_max = tot if best_max is None else max(best_max, tot)
+                    continue
+                for s, lab in node.succ:
+                    if (node, lab) in avoid_edges or s in avoid:
+                        continue
+                    if s in path[1:] :
+                        continue
+                    stack.append((s, path + (s,), tot + w.get(s, 0)))
+            n_paths += cnt
+            if res is None:
+                if best_min is not None:
+                    raise AnalysisError("engine cross-check: count_range says unreachable, enumeration found a path in %s" % cfg.func.fq)
+            else:
+                if best_min != res[0]:
+                    raise AnalysisError("engine cross-check: count_range min %s vs enumerated %s in %s" % (res[0], best_min, cfg.func.fq))
+                if res[1] != float("inf") and best_max != res[1]:
+                    raise AnalysisError("engine cross-check: count_range max %s vs enumerated %s in %s" % (res[1], best_max, cfg.func.fq))
+            n_cr += 1
+    return {"queries_cross_checked": {"must_pass": n_mp, "count_range": n_cr, "simple_paths_enumerated": n_paths}}
+
+
 def run(chk, mod, seed, selftest=True):
     extra = enumerate_paths(chk)
     if selftest:
